@@ -580,20 +580,12 @@ def rollback(ctx: Any) -> List[Ob]:
     me = ck.params[0]
     restored: Set[str] = set()
     cfg = cfg_of(ck.node)
-    # statements on the failure arm = those not dominating / reachable after the size test's False arm
-    fail_nodes = []
-    for t in cfg.nodes:
-        if t.kind == 'test' and isinstance(t.ast, ast.Compare) and any(self_attr(x, me) == 'size' for x in ast.walk(t.ast)):
-            for s, lab in t.succ:
-                if lab is False:
-                    stack, seen = [s], set()
-                    while stack:
-                        n = stack.pop()
-                        if n.id in seen:
-                            continue
-                        seen.add(n.id)
-                        fail_nodes.append(n)
-                        stack.extend(x for x, l2 in n.succ if l2 != 'exc')
+    # statements on the failure arm: the nodes executed when the size is over any limit but not when it fits
+    seen_over: List[Any] = []
+    seen_fit: List[Any] = []
+    traces(ctx, ck, {f'{me}.size': 10**9, f'{me}.allow_long': False, 'LOGGING_IS_ENABLED_FOR()': False}, lambda n, e: (seen_over.append(n) or []), loop_bound=1)
+    traces(ctx, ck, {f'{me}.size': 0, f'{me}.allow_long': False, 'LOGGING_IS_ENABLED_FOR()': False}, lambda n, e: (seen_fit.append(n) or []), loop_bound=1)
+    fail_nodes = [n for n in seen_over if n not in seen_fit]
     for n in fail_nodes:
         if n.ast is None:
             continue
